@@ -582,3 +582,335 @@ Proof.
     - unfold down_hits. rewrite !bool_decide_true by congruence. reflexivity. }
   rewrite Hd, orb_true_r. destruct (raw _ k) as [[st a]|]; [|exact I]. cbn. apply andb_false_r.
 Qed.
+
+(* ------------------------------------------------------------------ *)
+(* 4. the repaired code (ser = true): no failed CAS, no deadlock,       *)
+(*    every fair schedule finishes within a bound                      *)
+(* ------------------------------------------------------------------ *)
+
+Definition lock_ok (c : cst) : Prop :=
+  c_fail c = 0%N /\
+  (forall h, c_lock c = Some h -> exists th, c_thr c !! h = Some th) /\
+  (forall t th, c_thr c !! t = Some th ->
+     (c_lock c = Some t <-> t_loc th <> LIdle) /\
+     (forall fs m f st new, t_loc th = LCas fs m f st new -> st = stamp c f)).
+
+Lemma lock_ok_init progs : lock_ok (init progs).
+Proof.
+  split; [reflexivity|]. split; [intros h [=]|].
+  intros t th Hth. apply init_thr_inv in Hth as (p & _ & ->). cbn. split; [split; [intros [=]|intros H; contradiction]|].
+  intros ? ? ? ? ? [=].
+Qed.
+
+Lemma step_length ser c t : length (c_thr (step ser c t)) = length (c_thr c).
+Proof.
+  unfold step. destruct (c_thr c !! t) as [th0|]; [|reflexivity].
+  destruct (t_loc th0) as [|fs m|fs m f st new].
+  - destruct (t_todo th0) as [|[p|fs m] rest]; [reflexivity|cbn; apply insert_length|].
+    destruct ser; [destruct (c_lock c)|]; [reflexivity|cbn; apply insert_length|cbn; apply insert_length].
+  - destruct fs; cbn; apply insert_length.
+  - destruct (bool_decide _); cbn; apply insert_length.
+Qed.
+
+Lemma run_length ser s : forall c, length (c_thr (run ser c s)) = length (c_thr c).
+Proof.
+  induction s as [|t s IH]; intros c; [reflexivity|].
+  change (run ser c (t :: s)) with (run ser (step ser c t) s). rewrite IH. apply step_length.
+Qed.
+
+Lemma lock_ok_step c t : lock_ok c -> lock_ok (step true c t).
+Proof.
+  intros (Hfail & Hlk & Hthr). pose proof (conj Hfail (conj Hlk Hthr) : lock_ok c) as Hall. unfold step.
+  destruct (c_thr c !! t) as [th|] eqn:Eth; [|exact Hall].
+  assert (t < length (c_thr c)) as Hlt by (eapply lookup_lt_Some, Eth).
+  destruct (Hthr t th Eth) as [Hown Hcas].
+  destruct (t_loc th) as [|fs m|fs m f st new] eqn:Eloc.
+  - assert (c_lock c <> Some t) as Hnot by (intros H; apply Hown in H; contradiction).
+    destruct (t_todo th) as [|[p|fs m] rest] eqn:Etodo; [exact Hall| |].
+    + split; [exact Hfail|]. cbn [c_lock c_thr]. split.
+      * intros h Hh. destruct (Hlk h Hh) as (th' & Hth'). destruct (decide (t = h)) as [->|Hne]; [congruence|].
+        exists th'. rewrite list_lookup_insert_ne by exact Hne. exact Hth'.
+      * intros t' th' Hth'. apply thr_lookup_insert in Hth' as [(-> & -> & _)|(Hne & Hth')].
+        -- cbn [t_loc]. split; [split; [intros H; contradiction|intros H; contradiction]|intros ? ? ? ? ? [=]].
+        -- exact (Hthr t' th' Hth').
+    + destruct (c_lock c) as [h|] eqn:Elock; [exact Hall|].
+      split; [exact Hfail|]. cbn [c_lock c_thr]. split.
+      * intros h [= <-]. eexists. apply list_lookup_insert, Hlt.
+      * intros t' th' Hth'. apply thr_lookup_insert in Hth' as [(-> & -> & _)|(Hne & Hth')].
+        -- cbn [t_loc]. split; [split; [intros _ [=]|reflexivity]|intros ? ? ? ? ? [=]].
+        -- destruct (Hthr t' th' Hth') as [Hown' Hcas']. split; [|exact Hcas'].
+           split; [intros [= ->]; contradiction|]. intros H. apply Hown' in H. discriminate.
+  - assert (c_lock c = Some t) as Hmine by (apply Hown; discriminate).
+    assert (forall t' th', t <> t' -> c_thr c !! t' = Some th' -> t_loc th' = LIdle) as Hidle.
+    { intros t' th' Hne Hth'. destruct (Hthr t' th' Hth') as [Hown' _].
+      destruct (t_loc th') eqn:E; [reflexivity| |]; exfalso;
+        (assert (c_lock c = Some t') as H by (apply Hown'; discriminate)); congruence. }
+    destruct fs as [|f fs].
+    + split; [exact Hfail|]. cbn [c_lock c_thr]. split; [intros h [=]|].
+      intros t' th' Hth'. apply thr_lookup_insert in Hth' as [(-> & -> & _)|(Hne & Hth')].
+      * cbn [t_loc]. split; [split; [intros [=]|intros H; contradiction]|intros ? ? ? ? ? [=]].
+      * rewrite (Hidle t' th' Hne Hth'). split; [split; [intros [=]|intros H; contradiction]|intros ? ? ? ? ? [=]].
+    + split; [exact Hfail|]. cbn [c_lock c_thr]. split.
+      * intros h Hh. rewrite Hmine in Hh. injection Hh as <-. eexists. apply list_lookup_insert, Hlt.
+      * intros t' th' Hth'. apply thr_lookup_insert in Hth' as [(-> & -> & _)|(Hne & Hth')].
+        -- cbn [t_loc]. split; [split; [intros _ [=]|intros _; exact Hmine]|].
+           intros ? ? ? ? ? [= <- <- <- <- <-]. rewrite stamp_keep. reflexivity.
+        -- rewrite (Hidle t' th' Hne Hth'). split; [split; [rewrite Hmine; intros [= ->]; contradiction|intros H; contradiction]|intros ? ? ? ? ? [=]].
+  - assert (c_lock c = Some t) as Hmine by (apply Hown; discriminate).
+    assert (forall t' th', t <> t' -> c_thr c !! t' = Some th' -> t_loc th' = LIdle) as Hidle.
+    { intros t' th' Hne Hth'. destruct (Hthr t' th' Hth') as [Hown' _].
+      destruct (t_loc th') eqn:E; [reflexivity| |]; exfalso;
+        (assert (c_lock c = Some t') as H by (apply Hown'; discriminate)); congruence. }
+    rewrite (Hcas _ _ _ _ _ eq_refl), bool_decide_true by reflexivity.
+    split; [exact Hfail|]. cbn [c_lock c_thr]. split.
+    + intros h Hh. rewrite Hmine in Hh. injection Hh as <-. eexists. apply list_lookup_insert, Hlt.
+    + intros t' th' Hth'. apply thr_lookup_insert in Hth' as [(-> & -> & _)|(Hne & Hth')].
+      * cbn [t_loc]. split; [split; [intros _ [=]|intros _; exact Hmine]|intros ? ? ? ? ? [=]].
+      * rewrite (Hidle t' th' Hne Hth'). split; [split; [rewrite Hmine; intros [= ->]; contradiction|intros H; contradiction]|intros ? ? ? ? ? [=]].
+Qed.
+
+Lemma lock_ok_run s : forall c, lock_ok c -> lock_ok (run true c s).
+Proof. induction s as [|t s IH]; intros c Hc; [exact Hc|]. cbn. apply IH, lock_ok_step, Hc. Qed.
+
+(* the store's retry branch is dead code under the mutex *)
+Theorem serialised_cas_never_fails progs s : c_fail (run true (init progs) s) = 0%N.
+Proof. apply (lock_ok_run s (init progs) (lock_ok_init progs)). Qed.
+
+Lemma nsum_insert (f : thr -> nat) (l : list thr) : forall t old new, l !! t = Some old ->
+  nsum (map f (<[t := new]> l)) + f old = nsum (map f l) + f new.
+Proof.
+  induction l as [|x l IH]; intros t old new H; [destruct t; discriminate|].
+  destruct t as [|t].
+  - cbn in H. injection H as ->. cbn. lia.
+  - cbn in H. specialize (IH t old new H). change (<[S t:=new]> (x :: l)) with (x :: <[t:=new]> l). cbn [map nsum]. lia.
+Qed.
+
+Lemma work_insert c ri st lk fl t old new : c_thr c !! t = Some old ->
+  work (MkC ri st lk (<[t := new]> (c_thr c)) fl) + thr_work old = work c + thr_work new.
+Proof. intros H. unfold work. cbn [c_thr]. apply nsum_insert, H. Qed.
+
+(* a step of the repaired code either changes nothing (the thread is finished
+   or waits for the mutex) or brings the system one step closer to the end *)
+Lemma step_work c t : lock_ok c ->
+  (step true c t = c /\ enabled c t = false) \/ (enabled c t = true /\ work (step true c t) + 1 = work c).
+Proof.
+  intros (Hfail & Hlk & Hthr). unfold step, enabled.
+  destruct (c_thr c !! t) as [th|] eqn:Eth; [|left; split; reflexivity].
+  destruct (Hthr t th Eth) as [Hown Hcas].
+  destruct (t_loc th) as [|fs m|fs m f st new] eqn:Eloc.
+  - destruct (t_todo th) as [|[p|fs m] rest] eqn:Etodo; [left; split; reflexivity| |].
+    + right. split; [reflexivity|].
+      pose proof (work_insert c (rib_insert_payload (c_rib c) p) (c_stamps c) (c_lock c) (c_fail c) t th (MkThr rest LIdle) Eth) as H.
+      unfold thr_work in H. rewrite Eloc, Etodo in H. cbn [t_loc t_todo loc_cost map nsum act_cost length] in H. lia.
+    + destruct (c_lock c); [left; split; reflexivity|]. right. split; [reflexivity|].
+      pose proof (work_insert c (c_rib c) (c_stamps c) (Some t) (c_fail c) t th (MkThr rest (LMark fs m)) Eth) as H.
+      unfold thr_work in H. rewrite Eloc, Etodo in H. cbn [t_loc t_todo loc_cost map nsum act_cost length] in H. lia.
+  - right. split; [destruct (t_todo th); reflexivity|]. destruct fs as [|f fs].
+    + pose proof (work_insert c (c_rib c) (c_stamps c) None (c_fail c) t th (MkThr (t_todo th) LIdle) Eth) as H.
+      unfold thr_work in H. rewrite Eloc in H. cbn [t_loc t_todo loc_cost map nsum act_cost length] in H. lia.
+    + pose proof (work_insert c (c_rib c) (c_stamps c) (c_lock c) (c_fail c) t th
+                    (MkThr (t_todo th) (LCas fs m f (stamp c f) ({[(f, m)]} ∪ wdm (c_rib c)))) Eth) as H.
+      unfold thr_work in H. rewrite Eloc in H. cbn [t_loc t_todo loc_cost map nsum act_cost length] in H. lia.
+  - right. split; [destruct (t_todo th); reflexivity|].
+    rewrite (Hcas _ _ _ _ _ eq_refl), bool_decide_true by reflexivity.
+    pose proof (work_insert c (MkRib (recs (c_rib c)) (fam_part f new ∪ fam_rest f (wdm (c_rib c))))
+                  (<[f:=(stamp c f + 1)%N]> (c_stamps c)) (c_lock c) (c_fail c) t th (MkThr (t_todo th) (LMark fs m)) Eth) as H.
+    unfold thr_work in H. rewrite Eloc in H. cbn [t_loc t_todo loc_cost map nsum act_cost length] in H. lia.
+Qed.
+
+Lemma not_all_ex {A} (f : A -> bool) (l : list A) : forallb f l = false -> exists i x, l !! i = Some x /\ f x = false.
+Proof.
+  induction l as [|x l IH]; [discriminate|]. cbn. destruct (f x) eqn:E.
+  - intros H. destruct (IH H) as (i & y & Hi & Hy). exists (S i), y. split; assumption.
+  - intros _. exists 0, x. split; [reflexivity|exact E].
+Qed.
+
+(* deadlock freedom: as long as somebody has work left, somebody can move *)
+Lemma exists_enabled c : lock_ok c -> all_done c = false ->
+  exists t, t < length (c_thr c) /\ enabled c t = true.
+Proof.
+  intros (Hfail & Hlk & Hthr) Hnd. destruct (c_lock c) as [h|] eqn:Elock.
+  - destruct (Hlk h eq_refl) as (th & Hth). exists h. split; [eapply lookup_lt_Some, Hth|].
+    unfold enabled. rewrite Hth. destruct (Hthr h th Hth) as [Hown _].
+    destruct (t_loc th) eqn:E; [exfalso; apply Hown; reflexivity| |]; destruct (t_todo th); reflexivity.
+  - apply not_all_ex in Hnd as (t & th & Hth & Hd). exists t. split; [eapply lookup_lt_Some, Hth|].
+    unfold enabled. rewrite Hth, Elock. destruct (Hthr t th Hth) as [Hown _].
+    unfold thr_done in Hd.
+    destruct (t_loc th) eqn:E.
+    + destruct (t_todo th) as [|[|]]; [discriminate|reflexivity|reflexivity].
+    + destruct (t_todo th); reflexivity.
+    + destruct (t_todo th); reflexivity.
+Qed.
+
+Lemma work_mono s : forall c, lock_ok c -> work (run true c s) <= work c.
+Proof.
+  induction s as [|t s IH]; intros c Hc; [reflexivity|]. cbn [run fold_left]. fold (run true (step true c t) s).
+  specialize (IH _ (lock_ok_step c t Hc)).
+  destruct (step_work c t Hc) as [[Heq _]|[_ Hw]]; [rewrite Heq in *; exact IH|lia].
+Qed.
+
+Lemma block_progress b : forall c, lock_ok c -> (exists t, In t b /\ enabled c t = true) ->
+  work (run true c b) < work c.
+Proof.
+  induction b as [|t' b IH]; intros c Hc (t & Hin & Hen); [destruct Hin|].
+  cbn [run fold_left]. fold (run true (step true c t') b).
+  destruct (step_work c t' Hc) as [[Heq Hdis]|[_ Hw]].
+  - rewrite Heq. apply IH; [exact Hc|]. exists t. split; [|exact Hen].
+    destruct Hin as [->|Hin]; [congruence|exact Hin].
+  - pose proof (work_mono b _ (lock_ok_step c t' Hc)). lia.
+Qed.
+
+Lemma done_stays c t : all_done c = true -> step true c t = c.
+Proof.
+  intros Hd. unfold step. destruct (c_thr c !! t) as [th|] eqn:Eth; [|reflexivity].
+  pose proof (all_done_at c t th Hd Eth) as H. unfold thr_done in H.
+  destruct (t_todo th), (t_loc th); try discriminate. reflexivity.
+Qed.
+
+Lemma done_stays_run s : forall c, all_done c = true -> run true c s = c.
+Proof. induction s as [|t s IH]; intros c Hd; [reflexivity|]. cbn. rewrite done_stays by exact Hd. apply IH, Hd. Qed.
+
+Lemma fair_terminates_from blocks : forall c, lock_ok c ->
+  Forall (covers (length (c_thr c))) blocks -> work c <= length blocks ->
+  all_done (run true c (concat blocks)) = true.
+Proof.
+  induction blocks as [|b bs IH]; intros c Hc Hcov Hw.
+  - cbn. destruct (all_done c) eqn:Hd; [reflexivity|]. exfalso.
+    destruct (exists_enabled c Hc Hd) as (t & _ & Hen).
+    destruct (step_work c t Hc) as [[_ H]|[_ H]]; [congruence|]. cbn in Hw. lia.
+  - cbn [concat]. unfold run. rewrite fold_left_app. fold (run true c b). fold (run true (run true c b) (concat bs)).
+    destruct (all_done c) eqn:Hd.
+    + rewrite (done_stays_run b c Hd), (done_stays_run (concat bs) c Hd). exact Hd.
+    + apply Forall_cons in Hcov as [Hb Hbs].
+      destruct (exists_enabled c Hc Hd) as (t & Hlt & Hen).
+      pose proof (block_progress b c Hc (ex_intro _ t (conj (Hb t Hlt) Hen))) as Hprog.
+      apply IH; [apply lock_ok_run, Hc|rewrite run_length; exact Hbs|]. cbn [length] in Hw. lia.
+Qed.
+
+(* MAIN 4: bounded completion. Under any schedule that gives every writer a
+   turn in each block, work(init) blocks are enough for every writer to finish
+   everything, whatever the interleaving inside the blocks *)
+Theorem fair_terminates progs blocks :
+  Forall (covers (length progs)) blocks -> work (init progs) <= length blocks ->
+  all_done (run true (init progs) (concat blocks)) = true.
+Proof.
+  intros Hcov Hw. apply fair_terminates_from; [apply lock_ok_init| |exact Hw].
+  unfold init. cbn [c_thr]. rewrite map_length. exact Hcov.
+Qed.
+
+Theorem no_deadlock progs s :
+  all_done (run true (init progs) s) = false ->
+  exists t, t < length progs /\ enabled (run true (init progs) s) t = true /\
+            work (step true (run true (init progs) s) t) + 1 = work (run true (init progs) s).
+Proof.
+  intros Hd. pose proof (lock_ok_run s _ (lock_ok_init progs)) as Hc.
+  destruct (exists_enabled _ Hc Hd) as (t & Hlt & Hen).
+  exists t. rewrite run_length in Hlt. unfold init in Hlt. cbn [c_thr] in Hlt. rewrite map_length in Hlt.
+  split; [exact Hlt|]. split; [exact Hen|].
+  destruct (step_work _ t Hc) as [[_ H]|[_ H]]; [congruence|exact H].
+Qed.
+
+(* the bound, in terms of the Updates *)
+Lemma work_init progs : work (init progs) = nsum (map (fun p => nsum (map upd_cost p)) progs).
+Proof.
+  unfold work, init. cbn [c_thr]. rewrite map_map. f_equal. apply map_ext. intros p.
+  unfold thr_work. cbn [t_loc t_todo loc_cost]. cbn [Nat.add].
+  induction p as [|u p IH]; [reflexivity|]. unfold acts_of_prog in *. cbn [flat_map map nsum].
+  rewrite map_app. unfold upd_cost.
+  assert (forall l1 l2, nsum (l1 ++ l2) = nsum l1 + nsum l2) as Happ.
+  { clear. induction l1 as [|x l1 IH]; intros l2; cbn; [reflexivity|]. rewrite IH. lia. }
+  rewrite Happ, IH. reflexivity.
+Qed.
+
+(* ------------------------------------------------------------------ *)
+(* 5. the code as it was (ser = false): a failed CAS never recovers    *)
+(* ------------------------------------------------------------------ *)
+
+Lemma stamp_mono ser c t f : (stamp c f <= stamp (step ser c t) f)%N.
+Proof.
+  unfold step. destruct (c_thr c !! t) as [th|]; [|lia].
+  destruct (t_loc th) as [|fs m|fs m f' st new].
+  - destruct (t_todo th) as [|[p|fs m] rest]; [lia|rewrite stamp_keep; lia|].
+    destruct ser; [destruct (c_lock c)|]; rewrite ?stamp_keep; lia.
+  - destruct fs; rewrite stamp_keep; lia.
+  - destruct (bool_decide (stamp c f' = st)) eqn:Hb; [|rewrite stamp_keep; lia].
+    apply bool_decide_eq_true in Hb. rewrite stamp_insert. destruct (decide (f' = f)) as [->|]; lia.
+Qed.
+
+Lemma step_other ser c t t' : t <> t' -> c_thr (step ser c t) !! t' = c_thr c !! t'.
+Proof.
+  intros Hne. destruct (c_thr c !! t') as [th|] eqn:E.
+  - destruct (step_thr ser c t t' th E) as (th' & Hth' & Hrel).
+    apply Nat.eqb_neq in Hne. rewrite Hne in Hrel. congruence.
+  - apply lookup_ge_None in E. apply lookup_ge_None. rewrite step_length. exact E.
+Qed.
+
+(* thread 1 sits in the store's loop with a `current` that is no longer the cell *)
+Definition stuck (c : cst) : Prop :=
+  exists todo fs m f st new, c_thr c !! 1 = Some (MkThr todo (LCas fs m f st new)) /\ (st < stamp c f)%N.
+
+Lemma stuck_step c t : stuck c -> stuck (step false c t).
+Proof.
+  intros (todo & fs & m & f & st & new & Hth & Hst).
+  destruct (decide (t = 1)) as [->|Hne].
+  - unfold step. rewrite Hth. cbn [t_loc t_todo].
+    rewrite bool_decide_false by lia.
+    exists todo, fs, m, f, st, (wdm (c_rib c)). cbn [c_thr]. rewrite stamp_keep. split; [|exact Hst].
+    apply list_lookup_insert. eapply lookup_lt_Some, Hth.
+  - exists todo, fs, m, f, st, new. rewrite step_other by exact Hne. split; [exact Hth|].
+    pose proof (stamp_mono false c t f). lia.
+Qed.
+
+Lemma stuck_run s : forall c, stuck c -> stuck (run false c s).
+Proof. induction s as [|t s IH]; intros c Hc; [exact Hc|]. cbn. apply IH, stuck_step, Hc. Qed.
+
+Lemma stuck_not_done c : stuck c -> done_at c 1 = false.
+Proof. intros (todo & fs & m & f & st & new & Hth & _). unfold done_at. rewrite Hth. unfold thr_done. cbn. destruct todo; reflexivity. Qed.
+
+Lemma livelock_prefix_stuck : stuck (run false (init livelock_progs) livelock_prefix).
+Proof.
+  unfold stuck. eexists _, _, _, _, _, _. split; [vm_compute; reflexivity|]. vm_compute. reflexivity.
+Qed.
+
+(* MAIN 5 (refutation for the code as it was): two sessions lost at the same
+   moment; after six shared-memory accesses the second writer can never finish
+   its Update::Withdraw, under ANY continuation of the schedule, however fair
+   and however long - and its id is never marked *)
+Theorem cas_livelock s :
+  done_at (run false (init livelock_progs) (livelock_prefix ++ s)) 1 = false /\
+  all_done (run false (init livelock_progs) (livelock_prefix ++ s)) = false.
+Proof.
+  unfold run. rewrite fold_left_app. fold (run false (init livelock_progs) livelock_prefix).
+  set (c0 := run false (init livelock_progs) livelock_prefix).
+  fold (run false c0 s).
+  pose proof (stuck_run s c0 livelock_prefix_stuck) as Hs.
+  pose proof (stuck_not_done _ Hs) as Hnd. split; [exact Hnd|].
+  destruct (all_done (run false c0 s)) eqn:Hd; [|reflexivity]. exfalso.
+  destruct Hs as (todo & fs & m & f & st & new & Hth & _).
+  pose proof (all_done_at _ _ _ Hd Hth) as H. unfold thr_done in H. cbn in H. destruct todo; discriminate.
+Qed.
+
+(* the same scenario on the repaired code finishes, in exactly work(init) = 20 steps of a round-robin *)
+Lemma livelock_scenario_repaired :
+  work (init livelock_progs) = 20 /\
+  all_done (run true (init livelock_progs) (concat (repeat [0; 1] 20))) = true /\
+  c_fail (run true (init livelock_progs) (concat (repeat [0; 1] 20))) = 0%N.
+Proof. vm_compute. repeat split; reflexivity. Qed.
+
+(* ------------------------------------------------------------------ *)
+(* 6. down to the property's own reading (RibModel.spec_lookup)        *)
+(* ------------------------------------------------------------------ *)
+
+(* what its owner wrote last: the last announce / withdraw / session loss of
+   that id for that (family, prefix); exact outside the recorded class C03-1
+   (announcement after a session-wide withdrawal of a reused id), which is a
+   property of the sequential RIB, not of concurrency *)
+Theorem last_write_is_last_event ser progs s t p k :
+  disjoint_ids progs -> progs !! t = Some p -> In (k_mui k) (prog_muis p) ->
+  all_done (run ser (init progs) s) = true ->
+  known_c03 (evs_of p) k = false ->
+  rib_lookup (c_rib (run ser (init progs) s)) k = spec_lookup (evs_of p) k.
+Proof.
+  intros Hdis Hp Hk Hdone Hkn. rewrite (last_write_wins ser progs s t p k Hdis Hp Hk Hdone).
+  apply rib_lookup_spec_exact, Hkn.
+Qed.
